@@ -7,3 +7,4 @@ EXPLANATION = ("Interface part: bounded runtime contracts under real TensorFlow:
 ASSUMPTIONS = ["A-LIB: numpy.linalg.inv / eig"]
 
 from vt.contracts import iface_nll  # noqa: F401,E402
+from vt.contracts import errnum  # noqa: F401,E402
